@@ -249,7 +249,11 @@ def part_mode_strings(rec, thorough):
     rec.count("mode_strings_invalid", rej)
 
 
+CWDREL_KINDS = set()  # filled from the fixture: the first few kinds (quick tier: a relative cwd argument on a sample of kinds)
+
+
 def part_path(rec, R, kinds, thorough, rng):
+    CWDREL_KINDS.update(name for name, _ in kinds[:12])
     A = R
     B = os.path.join(R, "d_rwx", "sub", "cwdB")
     up = "../../../"
@@ -279,6 +283,8 @@ def part_path(rec, R, kinds, thorough, rng):
         cases.append((name, "relB", B, up + sp, None))
         cases.append((name, "abs", B, os.path.join(R, sp), None))
         cases.append((name, "cwdarg", B, sp, A))
+        if name in CWDREL_KINDS or thorough:
+            cases.append((name, "cwdarg-rel", B, sp, os.path.relpath(A, B)))  # a cwd argument that is itself relative names a directory below the process cwd
         if thorough:
             cases.append((name, "pathlike", A, sp, None))
             cases.append((name, "copy", A, sp, None))
@@ -295,7 +301,7 @@ def part_path(rec, R, kinds, thorough, rng):
     for name, variant, pcwd, sp, cwdarg in cases:
         os.chdir(pcwd)
         expanded = os.path.expanduser(sp)
-        base = cwdarg or pcwd
+        base = os.path.join(pcwd, cwdarg) if cwdarg else pcwd
         expected_abs = expanded if os.path.isabs(expanded) else os.path.join(base, expanded)
         facts = Facts(expected_abs)
         arg = sp
